@@ -1398,3 +1398,28 @@ class ThreadUniform:
 
 register(Obligation(name="C20.backend.thread_count_only_as_workers", prop=PROP, engine="Z", functions=["eminus.backend:fftn", "eminus.backend:ifftn"], run=ThreadUniform(),
                     assumes=("fft",), doc="the configured thread count flows only into the `workers` argument of scipy.fft (the algorithm does not depend on it)"))
+
+
+class SeedOnlyNative:
+    """BOUNDED twin of the seed-only proofs: the native scenario (several seeds incl. 0, positions, disturbed global random state, symmetric option) on every run."""
+
+    def __init__(self, fname):
+        self.fname = fname
+
+    def __call__(self, ob, tier, seed):
+        r = run_scenario(f"seedonly:{self.fname}")
+        if r.get("crash"):
+            return Result(REFUTED, backend="native", witness=dict(function=self.fname), replayed=True, replay_info=r, detail=f"{self.fname}: the seeded guess raises: {r.get('stderr', '')[-300:]}")
+        if r.get("differs"):
+            return Result(REFUTED, backend="native", witness=dict(function=self.fname), replayed=True, replay_info=r,
+                          detail=f"{self.fname}: coefficients are not a function of the seed alone (or two seeds give the same / the symmetric option does not repeat the channel)")
+        return Result(BOUNDED_OK, backend="native", stats=r, detail="bounded: seeds 11, 0, 1, 2^40+3: identical for moved atoms and a disturbed global random state, different between seeds, symmetric option repeats one channel")
+
+    def replay(self, wit):
+        r = run_scenario(f"seedonly:{self.fname}")
+        return bool(r.get("differs") or r.get("crash")), r
+
+
+for _fn in ("guess_random", "guess_pseudo"):
+    register(Obligation(name=f"C20.{_fn}.seed_only.native_instance", prop=PROP, engine="B", bounded=True, run=SeedOnlyNative(_fn), functions=[f"eminus.dft:{_fn}"],
+                        doc=f"BOUNDED: {_fn} evaluated natively for several seeds (0 included), atom positions and global random states, plain and symmetric"))
